@@ -10,9 +10,10 @@ open Ice.Gen
 
 /-- bitmaps ice may modify: ones it allocated, the builder's own, a postings list's own, and the
     documented output parameter of `OrInto` -/
-def ownedOrigins : List String :=
-  ["fresh", "field:interim.Postings", "field:PostingsList.postings", "entry-param:PostingsList.OrInto#0"]
+def ownedOrigins : List (String × String) :=
+  [("fresh", ""), ("field", "interim.Postings"), ("field", "PostingsList.postings"),
+   ("entry-param", "PostingsList.OrInto#0")]
 
-theorem mutations_owned : ∀ m ∈ Mutations.mutatedRoots, m.2.2 ∈ ownedOrigins := by decide
+theorem mutations_owned : ∀ m ∈ Mutations.mutatedRoots, (m.2.2.1, m.2.2.2) ∈ ownedOrigins := by decide
 
 end Ice.Bridge
